@@ -356,7 +356,7 @@ Section FetchDocs.
     rewrite (fetch_all_ok gs).
     2:{ intros c buf Hi. apply group_sound in Hi. destruct Hi as [Hc Hx].
         destruct (Hcand c Hc) as [f [Hf [E Hint]]]. exists f. split; [exact Hf|]. split; [exact E|].
-        split; [intros Hd; unfold intersecting in Hint; rewrite Hd in Hint; discriminate|].
+        split; [intros Hd; unfold intersecting, intersecting_gen in Hint; rewrite Hd in Hint; discriminate|].
         apply Forall_forall. intros x Hxb. destruct (Hx x Hxb) as [src [Hs [E2 _]]].
         apply (Permutation_in _ (Permutation_sym Hperm)) in Hs. rewrite Forall_forall in Hu. subst x. apply Hu; exact Hs. }
     f_equal. rewrite arrange_writes. apply readout_spec. intros k sk Hk.
